@@ -65,6 +65,7 @@ type result struct {
 	MaxAfterCancel  int            `json:"max_matches_handled_after_cancel"`
 	PostCloseCalls  int            `json:"post_close_calls"`
 	AsyncErrors     map[string]int `json:"async_errors"`
+	DirectedClose   map[string]int `json:"close_issued_while_an_actor_was_parked_at"`
 	Problems        []problem      `json:"problems"`
 	Nontrivial      []string       `json:"nontrivial_rounds"`
 	Inconclusive    []string       `json:"inconclusive"`
@@ -72,6 +73,18 @@ type result struct {
 
 var configs = []string{"scorch-disk", "scorch-disk-merge", "scorch-disk-p3", "scorch-disk-unsafe", "scorch-mem",
 	"upsidedown-gtreap", "upsidedown-boltdb", "upsidedown-goleveldb", "upsidedown-moss"}
+
+// hook points (none of them under scorch's root lock) at which the directed Close rounds park an actor
+var closePoints = []string{
+	"persist.loopTop", "persist.gotSnapshot", "persist.snapshotDone", "persist.waitersReleased", "persist.idle",
+	"persist.memmerge.begin", "persist.memmerge.fileWritten", "persist.memmerge.beforeIntro", "persist.memmerge.afterIntro",
+	"persist.direct.begin", "persist.direct.segmentWritten", "persist.direct.beforeIntro", "persist.direct.afterIntro",
+	"persist.direct.beforeCommit", "persist.direct.afterCommit", "persist.direct.afterSync",
+	"merge.loopTop", "merge.idle", "merge.planned", "merge.task.begin", "merge.task.fileWritten", "merge.beforeIntro", "merge.afterIntro",
+	"purge.begin", "purge.bolt.beforeCommit", "purge.bolt.afterCommit", "purge.end",
+	"intro.idle", "batch.segmentBuilt", "batch.beforeIntro", "batch.applied", "batch.persisted",
+	"copy.readerTaken", "copy.begin", "copy.beforeCommit",
+}
 
 var asyncMu sync.Mutex
 var asyncErrs []string
@@ -158,6 +171,37 @@ func runRound(sp spec, round int, res *result, ops *counter) {
 	d := mon.New()
 	d.Install()
 	d.Add(mon.Delay(g.Derive("delay"), 1, 4, 300))
+	// directed Close (every second scorch round): a background actor (or a writer / copier) is parked at a chosen
+	// hook point, Close is issued while it sits there, and it is let go once Close has begun
+	var parked = make(chan string, 1)
+	var letGo = make(chan struct{})
+	var closeSeen = make(chan struct{})
+	directedPoint := ""
+	if cfg.IsScorch() && (round/len(configs))%2 == 1 {
+		directedPoint = closePoints[(round/(2*len(configs))+round)%len(closePoints)]
+		occWanted := g.Range(1, 3)
+		var once, onceClose sync.Once
+		d.Add(func(s *scorch.Scorch, point string, occ int) {
+			b := mon.Base(point)
+			if b == "close.begin" {
+				onceClose.Do(func() { close(closeSeen) })
+				return
+			}
+			if b != directedPoint || occ < occWanted || mon.LockedPoint(b) {
+				return
+			}
+			fire := false
+			once.Do(func() { fire = true })
+			if !fire {
+				return
+			}
+			parked <- b
+			select {
+			case <-letGo:
+			case <-time.After(5 * time.Second): // never hold the system for good
+			}
+		})
+	}
 	base := filepath.Join(sp.Dir, fmt.Sprintf("r%d", round))
 	idx, err := cfg.Open(base, corpus.Mapping())
 	if err != nil {
@@ -349,7 +393,25 @@ func runRound(sp spec, round int, res *result, ops *counter) {
 	// Close at a seeded moment while all of that is in flight
 	closeDone := make(chan error, 1)
 	go func() {
-		time.Sleep(time.Duration(g.Range(500, 15000)) * time.Microsecond)
+		wait := time.Duration(g.Range(500, 15000)) * time.Microsecond
+		if directedPoint != "" {
+			select {
+			case <-parked:
+				res.DirectedClose[directedPoint]++
+				go func() {
+					select {
+					case <-closeSeen:
+						time.Sleep(200 * time.Microsecond)
+					case <-time.After(50 * time.Millisecond):
+					}
+					close(letGo)
+				}()
+			case <-time.After(wait + 30*time.Millisecond):
+				res.DirectedClose["(point not reached: "+directedPoint+")"]++
+			}
+		} else {
+			time.Sleep(wait)
+		}
 		if inWrite.Load() > 0 {
 			overlapW.Store(true)
 		}
@@ -568,7 +630,7 @@ func roundsWorker(args []string) {
 		fmt.Fprintln(os.Stderr, err)
 		os.Exit(4)
 	}
-	res := &result{Ops: map[string]int{}, AsyncErrors: map[string]int{}}
+	res := &result{Ops: map[string]int{}, AsyncErrors: map[string]int{}, DirectedClose: map[string]int{}}
 	ops := &counter{m: res.Ops}
 	write := func() {
 		ob, _ := json.Marshal(res)
@@ -625,7 +687,7 @@ func run(r *ev.Run) {
 	r.MinDistinct = r.Scale(20, 400)
 	var wg sync.WaitGroup
 	var mu sync.Mutex
-	total := &result{Ops: map[string]int{}, AsyncErrors: map[string]int{}}
+	total := &result{Ops: map[string]int{}, AsyncErrors: map[string]int{}, DirectedClose: map[string]int{}}
 	races, raceKeys := 0, map[string]int{}
 	first := 0
 	for ci, c := range children {
@@ -725,6 +787,9 @@ func run(r *ev.Run) {
 			for k, v := range out.AsyncErrors {
 				total.AsyncErrors[k] += v
 			}
+			for k, v := range out.DirectedClose {
+				total.DirectedClose[k] += v
+			}
 			mu.Unlock()
 			for _, id := range out.Nontrivial {
 				r.Case(fmt.Sprintf("%v/%s", c.race, id), true)
@@ -753,5 +818,6 @@ func run(r *ev.Run) {
 	r.Extra("max_matches_handled_after_cancel", total.MaxAfterCancel)
 	r.Extra("post_close_calls_checked", total.PostCloseCalls)
 	r.Extra("async_errors_seen", total.AsyncErrors)
+	r.Extra("close_issued_while_an_actor_was_parked_at", total.DirectedClose)
 	r.Extra("operations_executed", total.Ops)
 }
